@@ -7,9 +7,12 @@ AUTO = '<auto>'
 
 
 class ModelError(Exception):
-    def __init__(self, exc_type):
+    """exc_type: the first applicable error; acceptable: every error whose condition holds (the
+    order in which an implementation tests several violated preconditions is its own business)"""
+    def __init__(self, exc_type, acceptable=None):
         Exception.__init__(self, exc_type)
         self.exc_type = exc_type
+        self.acceptable = set(acceptable or [exc_type])
 
 
 class ModelDb(object):
@@ -60,16 +63,17 @@ class ModelDb(object):
 
     def add_category(self, category, defs, placement=None, anchor=None, reserved=False,
                      two_placements=False):
+        errs = []
         if self.frozen:
-            raise ModelError('RuntimeError')
-        if reserved:
-            raise ModelError('ValueError')
+            errs.append('RuntimeError')
+        if reserved or (category is not None and category in self.names()):
+            errs.append('ValueError')
+        if two_placements:
+            errs.append('TypeError')
+        if errs:
+            raise ModelError(errs[0], errs)
         if category is None:
             category = self._new_auto()
-        if category in self.names():
-            raise ModelError('ValueError')
-        if two_placements:
-            raise ModelError('TypeError')
         entry = [category, {k: dict(defs.get(k, {})) for k in KINDS}]
         names = self.names()
         if placement == 'prepend':
@@ -108,10 +112,13 @@ class ModelDb(object):
         return new
 
     def extended(self, category, defs, unknown_overrides):
+        errs = []
         if category is not None and category in self.names():
-            raise ModelError('ValueError')
+            errs.append('ValueError')
         if not self.frozen:
-            raise ModelError('RuntimeError')
+            errs.append('RuntimeError')
+        if errs:
+            raise ModelError(errs[0], errs)
         new = ModelDb()
         new.unknown = dict(self.unknown)
         new.unknown.update(unknown_overrides)
